@@ -181,6 +181,8 @@ def run_tlc(name, spec, timeout):
 
 def replay_file(v, binary, work, doc, seed):
     rp = doc["replay"]
+    if "test" not in rp and isinstance(rp.get("replay"), dict):
+        rp = rp["replay"]      # the finding as the driver reported it; its own replay object is what is re-run
     test = rp.get("test")
     if not test:
         raise vlib.Broken("replay file has no test name")
@@ -253,7 +255,7 @@ def run(tier, seed, replay):
 
     def job(name):
         spec = runs[name]
-        r = run_tlc(name, spec, 3000 if big else 1500)
+        r = run_tlc(name, spec, 7200 if big else 1800)
         info = dict(distinct=r.distinct, generated=r.generated, depth=r.depth, violated=r.violation)
         tlc_cov[name] = info
         if r.violation:
@@ -277,15 +279,15 @@ def run(tier, seed, replay):
                 n = len(cases)
                 agg = drive(name, "TestDomainCases",
                             chunk_cases(cases, 16, probes=spec["probes"], table=table, sizes=sizes, combos=3 if big else 1,
-                                        fileEvery=max(1, n // (4000 if big else 600)), conv=conv, convEvery=max(1, n // (600 if big else 120))),
-                            2400 if big else 600)
+                                        fileEvery=max(1, n // (3000 if big else 600)), conv=conv, convEvery=max(1, n // (200 if big else 100))),
+                            7200 if big else 1800)
                 info["driver_cases"] = agg
             if spec.get("edges"):
                 g, behs, left = graph_paths(r, 8, None if big else 4000)
                 info.update(edges=len(g.edges), paths=len(behs), uncovered_edges=left)
                 a2 = drive(name + "/replay", "TestDomainReplay",
                            [{"seed": seed, "behaviours": c, "params": {"probes": spec["probes"], "table": table}} for c in common.chunks(behs, 8)],
-                           1200 if big else 400)
+                           3600 if big else 1200)
                 info["driver_replay"] = a2
                 agg = a2 if agg is None else {x: agg[x] + a2[x] for x in agg}
         elif name == "port_cases":
@@ -294,12 +296,12 @@ def run(tier, seed, replay):
             for c in cases:
                 if c["runs"]:
                     distinct.add(hashlib.sha1(json.dumps(c["runs"], sort_keys=True).encode()).hexdigest())
-            agg = drive(name, "TestPortCases", chunk_cases(cases, 16, routeEvery=1 if big else 4), 2400 if big else 600)
+            agg = drive(name, "TestPortCases", chunk_cases(cases, 16, routeEvery=1 if big else 4), 7200 if big else 1800)
         elif name == "port_graph":
             attach_obs(r, name)
             g, behs, left = graph_paths(r, 4, None)
             info.update(edges=len(g.edges), paths=len(behs), uncovered_edges=left)
-            agg = drive(name, "TestPortReplay", [{"seed": seed, "behaviours": c} for c in common.chunks(behs, 8)], 1200 if big else 400)
+            agg = drive(name, "TestPortReplay", [{"seed": seed, "behaviours": c} for c in common.chunks(behs, 8)], 3600 if big else 1200)
         elif name == "prefix":
             cases = lines(r.out, "CASE")
             info["cases"] = len(cases)
@@ -308,7 +310,7 @@ def run(tier, seed, replay):
                     distinct.add(hashlib.sha1(json.dumps(c["src"], sort_keys=True).encode()).hexdigest())
             n = len(cases)
             agg = drive(name, "TestPrefixCases", chunk_cases(cases, 12, w=3, mapsPerCase=6 if big else 2, fileEvery=max(1, n // 500)),
-                        2400 if big else 600)
+                        7200 if big else 1800)
         if agg:
             info["driver"] = agg
         return name, r, agg
